@@ -1164,6 +1164,31 @@ func compareReturns(sc *scen, ret []any, q p9.QID, valid p9.AttrMask, attr p9.At
 
 // fieldMap: wire field -> how to compare (skip fids here; they are checked separately)
 func (w *world) checkFrames(sc *scen, desc string, frames []captured, o *out, nums []uint64, strs []string, target, other, dir p9.File) {
+	// ClientFile.tla FollowUp: when an operation is carried by several T-messages, the first one
+	// binds a new fid and every later one names that fid (the file walked to, not the one walked from)
+	made, haveMade, nth := uint64(0), false, 0
+	for _, fr := range frames {
+		if !fr.toServer {
+			continue
+		}
+		d, err := w.t.Decode(fr.raw)
+		if err != nil || len(sc.TTypes) < 2 {
+			continue
+		}
+		if nth == 0 && d.Name == sc.TTypes[0] {
+			if nf, ok := d.V["newfid"].(uint64); ok {
+				made, haveMade = nf, true
+			}
+			nth = 1
+			continue
+		}
+		if nth >= 1 && nth < len(sc.TTypes) && d.Name == sc.TTypes[nth] && haveMade {
+			if got, ok := d.V["fid"].(uint64); ok && got != made {
+				o.add("C03", fmt.Sprintf("%s: the %s that completes the operation names fid %d; ClientFile.tla: the fid %d bound by its %s", desc, d.Name, got, made, sc.TTypes[0]))
+			}
+			nth++
+		}
+	}
 	for _, fr := range frames {
 		d, err := w.t.Decode(fr.raw)
 		if err != nil {
